@@ -9,7 +9,6 @@ import (
 
 	"verif/drv/pbt"
 	"verif/gen"
-	"verif/harness/inproc"
 )
 
 // FuzzPublishPayload: byte-level native fuzzing (thorough tier only) of the same
@@ -20,7 +19,7 @@ import (
 //
 //	byte 0      configuration: bit0 RTMP path (else customize), bit1 dummy audio on, bit2 dummy wait 100 ms (else 0),
 //	            bits3-4 valid prologue (0 none, 1 avc+aac, 2 hevc+aac, 3 enhanced hevc, video only),
-//	            bit5 subscribers of all four protocols, bit6 they join after the prologue (else before the publisher)
+//	            bit5 subscribers of all seven kinds (RTMP, FLV, TS, RTSP, WS-FLV, WS-TS, HLS requests), bit6 they join after the prologue (else before the publisher)
 //	then per message:
 //	  byte      bits0-1 type (0,3 video; 1 audio; 2 data), bits2-4 timestamp step
 //	            (0:+0 1:+23 2:+40 3:+1000 4:=2^32-1 5:explicit 32 bit follows 6:-5000 7:+61000)
@@ -95,7 +94,7 @@ func fuzzDecode(data []byte) (Case, int) {
 		if cfg&64 != 0 {
 			at = npro
 		}
-		for _, k := range []string{"rtmp", "flv", "ts", "rtsp"} {
+		for _, k := range []string{"rtmp", "flv", "ts", "rtsp", "wsflv", "wsts", "hls"} {
 			c.Subs = append(c.Subs, Sub{Kind: k, JoinAt: at})
 		}
 	}
@@ -147,6 +146,9 @@ func fuzzDecode(data []byte) (Case, int) {
 		}
 		c.Msgs = append(c.Msgs, Msg{Type: typ, Ts: ts, Class: "fuzz", Raw: pl})
 	}
+	if n := len(c.Msgs); n > npro {
+		c.Probes = []int{npro + (n-npro)/2} // the independent stream is also probed in the middle of the hostile messages
+	}
 	return c, key
 }
 
@@ -186,10 +188,12 @@ func FuzzPublishPayload(f *testing.F) {
 		fe := fuzzEnvs[key]
 		if fe == nil || fe.used >= 200 {
 			if fe != nil {
-				fe.env.other.close()
+				if fe.env.other != nil {
+					fe.env.other.close()
+				}
 				fe.env.s.Close()
 			}
-			fe = &fuzzEnv{env: &env{s: inproc.New(toCfg(c.Out))}}
+			fe = &fuzzEnv{env: newEnv(c.Out, "")}
 			fuzzEnvs[key] = fe
 		}
 		fe.used++
